@@ -2,7 +2,11 @@
 
 package reftable
 
-import "io/ioutil"
+import (
+	"io/ioutil"
+	"os"
+	"path/filepath"
+)
 
 // C17: auto-compaction segment choice and stack depth.
 
@@ -153,6 +157,87 @@ func Harness_C17_stack() {
 	if fin != nil {
 		VerifAssert(len(fin.stack) == len(st.stack), "list-differs-from-handle")
 	}
+}
+
+// a name long enough that a table holding it as a value ref and one holding its tombstone fall into the same size class
+const c17LongName = "refs/heads/xxxxxxxxxxxxxxxxxxxxxxxxxxxxxxxxxxxxxxxxxxxxxxxxxxxxxxxxxxxxxxxxxx"
+
+// Harness_C17_cancel: an automatic compaction whose range cancels out completely (every ref in it is deleted again inside the range, which starts at the oldest table) still makes progress: the tables of the range leave the stack.
+// bounds: a lone writer; 2..3 transactions of equal size: a fresh ref is created, then deleted (then a second ref created and, in the 3-transaction variant, the range still ends in tombstones only when that ref is deleted: variants create/delete and create/delete/create); automatic compaction off while seeding, then one AutoCompact call
+// covers: vanished, shrunk
+func Harness_C17_cancel() {
+	cfg := stackCfg(0)
+	dir := VerifTempDir()
+	st := mustOpen(dir, cfg, "open")
+	if st == nil {
+		return
+	}
+	k := VerifIntRange(2, 3)
+	for i := 0; i < k; i++ {
+		i := i
+		VerifAssert(st.Add(func(w *Writer) error {
+			ui := st.NextUpdateIndex()
+			w.SetLimits(ui, ui)
+			r := &RefRecord{RefName: c17LongName, UpdateIndex: ui}
+			if i%2 == 0 {
+				r.Value = hashWith(20, byte(i+1), 1)
+			}
+			return w.AddRef(r)
+		}) == nil, "seed-add")
+	}
+	n0 := len(st.stack)
+	seg := suggestCompactionSegment(st.tableSizesForCompaction())
+	if seg == nil {
+		return // sizes happen to differ in class: nothing to compact
+	}
+	VerifAssert(st.AutoCompact() == nil, "autocompact-error")
+	VerifAssert(len(st.stack) < n0, "compaction-made-no-progress")
+	fin := mustOpen(dir, cfg, "final-open")
+	if fin != nil {
+		VerifAssert(len(fin.stack) == len(st.stack), "list-differs-from-handle")
+		got := snapshot(fin, "final")
+		_, has := got.refs[c17LongName]
+		VerifAssert(has == (k == 3), "compaction-changed-refs")
+	}
+	if len(st.stack) == 0 {
+		VerifCover("vanished")
+	} else {
+		VerifCover("shrunk")
+	}
+}
+
+// Harness_C17_contended: an automatic compaction that finds one table of its range locked by another process gives up cleanly; once that process is gone the lone writer's stack is shallow again.
+// bounds: a stack of 4 equal tables; another process holds the compaction lock of one table (the oldest, a middle one or the newest; the lock file is placed and removed by the harness) while the writer's AutoCompact runs; then 12 more identical transactions by the writer with automatic compaction on, depth bound 2*log2(n) after each
+// covers: done
+func Harness_C17_contended() {
+	cfg := stackCfg(0)
+	dir := VerifTempDir()
+	st := mustOpen(dir, cfg, "open")
+	if st == nil {
+		return
+	}
+	payload := VerifU8()
+	for i := 0; i < 4; i++ {
+		VerifAssert(c17AddRefs(st, i, 2, payload) == nil, "seed-add")
+	}
+	which := []int{0, 2, 3}[VerifChoose(3)]
+	lock := filepath.Join(dir, st.stack[which].name+".lock")
+	VerifQuiet(func() {
+		f, err := os.OpenFile(lock, os.O_EXCL|os.O_CREATE|os.O_WRONLY, 0644)
+		if err == nil {
+			f.Close()
+		}
+	})
+	VerifAssert(st.AutoCompact() == nil, "autocompact-error")
+	VerifQuiet(func() { os.Remove(lock) })
+	st.disableAutoCompact = false
+	VerifMaxSteps(400000000)
+	for n := 5; n <= 16; n++ {
+		VerifAssert(c17AddRefs(st, n, 2, payload) == nil, "add")
+		l := specBitLen(uint64(n)) - 1
+		VerifAssert(len(st.stack) <= 2*l, "depth-bound")
+	}
+	VerifCover("done")
 }
 
 // Harness_C17_writer: a real single writer with auto-compaction on: after every one of N identical transactions the stack is at most 2*log2(N) tables deep.
